@@ -24,7 +24,7 @@ def summary(ctx, b):
     loops = []
     for ls in ev.vf.loops:
         nxt = sorted((re.sub(r"^\('acc', '[^']*'\)$", 'ACC', canon(keyrepr(k))), canon(show(ls.next[k])) if isinstance(ls.next.get(k), T.Tm) else '?') for k in ls.lh
-                     if not (isinstance(ls.next.get(k), T.Tm) and ls.next[k] is ls.lh[k])
+                     if not (isinstance(ls.next.get(k), T.Tm) and ls.next[k] is ls.lh[k]) and k not in getattr(ls, 'induction', ())
                      # (a collection built by push from empty is the loop's result, compared through the value it flows into)
                      and not (T.is_app(ls.next.get(k), 'push') and ls.next[k][2][0] is ls.lh[k] and ls.init.get(k) is T.app('array')))
         loops.append((len(ls.ctx), canon(show(ls.n)) if ls.n is not None else None, tuple(canon(show(e[2])) for e in ls.exits), tuple(nxt)))
